@@ -5,6 +5,8 @@ use crate::report::Tier;
 pub mod c01;
 pub mod c02;
 pub mod c03;
+pub mod c04;
+pub mod c05;
 pub mod c11;
 
 pub fn threads() -> usize {
@@ -19,6 +21,8 @@ pub fn dispatch(id: &str, tier: Tier, replay: Option<Value>, _rest: &[String]) -
         "C01" => c01::run(tier, replay),
         "C02" => c02::run(tier, replay),
         "C03" => c03::run(tier, replay),
+        "C04" => c04::run(tier, replay),
+        "C05" => c05::run(tier, replay),
         "C11" => c11::run(tier, replay),
         _ => {
             eprintln!("unknown property {id}");
